@@ -1283,6 +1283,19 @@ class SymSet(SymBase):
     def __len__(self):
         raise Unsupported("len() of a symbolic set")
 
+    def __symtruth__(self):
+        """A set is true iff it has at least one element (count > 0)."""
+        c = cur()
+        hs = self.has.sort
+        cnt = c.decls.fun("count_" + self.ksort, [hs], INT)(self.has)
+        c.pc.append(tm.Ge(cnt, tm.mk_int(0)))
+        empty = tm.ConstArray(hs, tm.FALSE)
+        c.pc.append(tm.Eq(c.decls.fun("count_" + self.ksort, [hs], INT)(empty), tm.mk_int(0)))
+        return tm.Gt(cnt, tm.mk_int(0))
+
+    def __bool__(self):
+        return cur().fork(self.__symtruth__())
+
 
 # --------------------------------------------------------------------------- opaque values
 
